@@ -77,6 +77,9 @@ impl Gen {
             // sometimes a (malicious) sender pre-sets the id of an existing message of another author on its rumor
             let victims: Vec<u64> = w.events.values().filter(|i| i.kind == "app" && i.author != m).filter_map(|i| i.msg.map(|x| x.0)).collect();
             if !victims.is_empty() && self.r.chance(1, 6) { let v = *self.r.pick(&victims); return format!("PR SEND {m} {ev} {} {msg} {v}", self.ts()); }
+            // sometimes the inner rumor names another client (member or not) as its author
+            if self.r.chance(1, 8) { let tot = w.clients.len() as u64; let k = (m as u64 + 1 + self.r.below(tot - 1)) % tot;
+                if w.clients[k as usize].keys.public_key() != w.clients[m].keys.public_key() { return format!("PR SENDF {m} {ev} {} {msg} {k}", self.ts()); } }
             return format!("PR SEND {m} {ev} {} {msg}", self.ts());
         }
         // deliver (possibly a duplicate; possibly own echo)
@@ -127,7 +130,7 @@ fn run_world<S: MdkStorageProvider, F: Fn(usize) -> S>(run: &mut Run, lines_in: 
     if let Some(lines) = lines_in {
         for l in lines {
             let t: Vec<&str> = l.split(' ').collect();
-            if t[1] == "RESET" { world_no.set(world_no.get() + 1); world = Some(World::new_twin(t[2].parse().unwrap(), t[3].parse().unwrap(), t[4].parse().unwrap(), t.get(5) == Some(&"1"), &mk));
+            if t[1] == "RESET" { world_no.set(world_no.get() + 1); world = Some(World::new_full(t[2].parse().unwrap(), t[3].parse().unwrap(), t[4].parse().unwrap(), t.get(5) == Some(&"1"), t.get(6).and_then(|x| x.parse().ok()).unwrap_or(0), &mk));
                 if let Some(f) = reopen_factory.as_ref() { let id = world_no.get(); world.as_mut().unwrap().reopen = Some(f(id.wrapping_sub(1000))); } push(run, "RESET", false, l.clone(), "RESET".into()); continue; }
             let (line, fp) = world.as_mut().unwrap().exec(&l);
             push(run, "replay", true, line, fp);
@@ -146,14 +149,15 @@ fn run_world<S: MdkStorageProvider, F: Fn(usize) -> S>(run: &mut Run, lines_in: 
                 flush(run, &mut cur);
                 let (n, mask, ret): (usize, u64, usize) = (t[2].parse().unwrap(), t[3].parse().unwrap(), t[4].parse().unwrap());
                 world_no.set(world_no.get() + 1);
-                let w: World<S> = World::new_twin(n, mask, ret, t.get(5) == Some(&"1"), &mk);
+                let spare: usize = t.get(6).and_then(|x| x.parse().ok()).unwrap_or(0);
+                let w: World<S> = World::new_full(n, mask, ret, t.get(5) == Some(&"1"), spare, &mk);
                 run.case("RESET", false, l.to_string(), "RESET".into());
-                cur = Some((w, vec![l.to_string()], Truth { retention: ret as u64, visited: vec![BTreeSet::from([0u64]); n], offered: vec![BTreeSet::new(); n], ..Default::default() }, BTreeSet::new()));
+                cur = Some((w, vec![l.to_string()], Truth { retention: ret as u64, visited: (0..n + spare).map(|i| if i < n { BTreeSet::from([0u64]) } else { BTreeSet::new() }).collect(), offered: vec![BTreeSet::new(); n + spare], ..Default::default() }, BTreeSet::new()));
                 continue;
             }
             if let Some((w, seq, truth, live)) = cur.as_mut() {
                 let (line, fp) = step(w, l, truth, run, backend, seq);
-                if ["COMMIT", "SEND", "LEAVE", "BAD"].contains(&t[1]) { if let Ok(e) = t[if t[1] == "COMMIT" { 4 } else if t[1] == "BAD" { 2 } else { 3 }].parse::<u64>() { live.insert(e); } }
+                if ["COMMIT", "SEND", "SENDF", "LEAVE", "BAD"].contains(&t[1]) { if let Ok(e) = t[if t[1] == "COMMIT" { 4 } else if t[1] == "BAD" { 2 } else { 3 }].parse::<u64>() { live.insert(e); } }
                 seq.push(line.clone());
                 run.case("corpus", true, line, fp);
             }
@@ -163,22 +167,25 @@ fn run_world<S: MdkStorageProvider, F: Fn(usize) -> S>(run: &mut Run, lines_in: 
     for h in 0..nhist {
         world_no.set(1000 + h);
         let removal_script = h % 5 == 2;
-        let n = if removal_script { 4 } else { 3 + r.below(2) as usize };
+        let reuse_script = h % 5 == 0;
+        let n = if removal_script || reuse_script { 4 } else { 3 + r.below(2) as usize };
+        let spare = if reuse_script { 1 } else { 0 };
         let mut admin_mask = 1 | (r.below(1 << n) & !1) ;
         let retention = *r.pick(&[5usize, 5, 5, 5, 5, 2, 1, 0]);
         // one history in three of the four-member worlds has a two-device user (clients 2 and 3 share one identity)
-        let twin = n == 4 && (removal_script || r.chance(1, 3));
+        let twin = n == 4 && !reuse_script && (removal_script || r.chance(1, 3));
+        if reuse_script { admin_mask &= !0b10; }
         if twin { admin_mask = (admin_mask & !0b1000) | ((admin_mask & 0b100) << 1); }
         let mut g = Gen { r: r.fork(), n, admin_mask, next_ev: 0, next_msg: 1, evs: BTreeMap::new(),
                           regime_causal: h % 3 != 2, immediate: h % 4 == 3, client_epoch: vec![1; n], delivered: BTreeSet::new(), left: None, adv: 0, twin, removed: false };
-        let mut w: World<S> = World::new_twin(n, admin_mask, retention, twin, &mk);
+        let mut w: World<S> = World::new_full(n, admin_mask, retention, twin, spare, &mk);
         if let Some(f) = reopen_factory.as_ref() { w.reopen = Some(f(h)); }
-        let reset = format!("PR RESET {n} {admin_mask} {retention}{}", if twin { " 1" } else { "" });
+        let reset = format!("PR RESET {n} {admin_mask} {retention}{}", if spare > 0 { format!(" {} {spare}", twin as u8) } else if twin { " 1".to_string() } else { String::new() });
         let mut seq: Vec<String> = vec![reset.clone()];
         push(run, "RESET", false, reset, "RESET".into());
         let nsteps = steps / 2 + g.r.below(steps);
         let mut rolled = false;
-        let mut truth = Truth { retention: retention as u64, visited: vec![BTreeSet::from([0u64]); n], offered: vec![BTreeSet::new(); n], ..Default::default() };
+        let mut truth = Truth { retention: retention as u64, visited: (0..n + spare).map(|i| if i < n { BTreeSet::from([0u64]) } else { BTreeSet::new() }).collect(), offered: vec![BTreeSet::new(); n + spare], ..Default::default() };
         // every fifth history starts with a scripted deep fork: member 0 applies a chain of d of its own commits (by echo, so
         // with snapshots) while member 1's application message and competing commit of the first epoch are still in flight;
         // d straddles the exporter-secret lookback and the snapshot retention (both 5 by default)
@@ -203,6 +210,28 @@ fn run_world<S: MdkStorageProvider, F: Fn(usize) -> S>(run: &mut Run, lines_in: 
             script.push(format!("PR DELIVER 0 {e_comp}")); g.delivered.insert(e_comp);
             script.reverse();
         }
+        // every fifth history (residue 0) re-uses a leaf: member 1 sends a message whose inner rumor names the future joiner as its
+        // author and withholds it, is removed, client 4 is added (it takes the freed leaf) and joins; then the withheld message
+        // (and an honest one from the same epoch) are delivered
+        if reuse_script {
+            let base = g.next_ev; g.next_ev += 4;
+            let (m1, m2) = (g.next_msg, g.next_msg + 1); g.next_msg += 2;
+            g.evs.insert(base, EvMeta { kind: "app", author: 1, epoch_hint: 1 });
+            g.evs.insert(base + 1, EvMeta { kind: "app", author: 1, epoch_hint: 1 });
+            g.evs.insert(base + 2, EvMeta { kind: "commit", author: 0, epoch_hint: 1 });
+            g.evs.insert(base + 3, EvMeta { kind: "commit", author: 0, epoch_hint: 2 });
+            g.removed = true;
+            script.push(format!("PR SENDF 1 {base} 100 {m1} 4"));
+            script.push(format!("PR SEND 1 {} 100 {m2}", base + 1));
+            script.push(format!("PR COMMIT 0 rv1 {} 100", base + 2));
+            for c in [0usize, 2, 3, 1] { script.push(format!("PR DELIVER {c} {}", base + 2)); }
+            script.push(format!("PR COMMIT 0 add4 {} 101", base + 3));
+            for c in [0usize, 2, 3] { script.push(format!("PR DELIVER {c} {}", base + 3)); }
+            script.push(format!("PR JOIN 4 {}", base + 3));
+            for (c, e) in [(2usize, base), (2, base + 1), (3, base), (4, base), (4, base + 1)] { script.push(format!("PR DELIVER {c} {e}")); }
+            for e in base..base + 4 { g.delivered.insert(e); }
+            script.reverse();
+        }
         // every fifth history (another residue) removes a two-device user right away and then lets the remaining members talk
         if removal_script {
             let (e_rm, e_app) = (g.next_ev, g.next_ev + 1); g.next_ev += 2;
@@ -224,7 +253,8 @@ fn run_world<S: MdkStorageProvider, F: Fn(usize) -> S>(run: &mut Run, lines_in: 
             let (line, fp) = step(&mut w, &l, &mut truth, run, backend, &seq);
             if fp == "skip" { continue; }
             // keep generator's view of epochs in step with reality (record epoch printed as ep=)
-            if !l.starts_with("PR BAD") { if let Some(m) = l.split(' ').nth(2).and_then(|x| x.parse::<usize>().ok()) { g.client_epoch[m] = w.mls_epoch(m); } }
+            if l.starts_with("PR JOIN") && g.n < w.clients.len() { g.n += 1; g.client_epoch.push(1); }
+            if !l.starts_with("PR BAD") { if let Some(m) = l.split(' ').nth(2).and_then(|x| x.parse::<usize>().ok()) { if m < g.client_epoch.len() { g.client_epoch[m] = w.mls_epoch(m); } } }
             if fp == "PANIC" { run.oracle_fail("C06", "", format!("[{backend}] panic in `{l}`"), seq.join(" || ") + " || " + &line); }
             if fp.contains(" rb=") && !fp.ends_with(" rb=0") { rolled = true; }
             let class = l.split(' ').nth(1).unwrap().to_string();
@@ -254,6 +284,7 @@ fn step<S: MdkStorageProvider>(w: &mut World<S>, l: &str, truth: &mut Truth, run
         }
     }
     if t[1] == "MERGE" { truth.merges.push((m, t[3].parse().unwrap())); }
+    if t[1] == "JOIN" { truth.visited[m].insert(t[3].parse::<u64>().unwrap() + 1); }
     let before_restart = if t[1] == "RESTART" { Some(strip(&w.fingerprint(m, "-", None, None))) } else { None };
     if t[1] == "SEND" && t.len() > 6 { truth.sendx.push((m, t[5].parse().unwrap(), t[6].parse().unwrap())); }
     let members_before = if t[1] == "DELIVER" { w.members_of(m) } else { vec![] };
@@ -289,7 +320,8 @@ fn step<S: MdkStorageProvider>(w: &mut World<S>, l: &str, truth: &mut Truth, run
                 let truth_author = w.events.values().find(|i| i.msg.map(|x| x.1) == Some(sm.id)).map(|i| i.author);
                 let recomputed = { let mut e = sm.event.clone(); e.id = None; e.id() };
                 let own = sm.pubkey == w.clients[m].keys.public_key();
-                if !own && (recomputed != sm.id || truth_author.map(|a| w.clients[a].keys.public_key() != sm.pubkey).unwrap_or(true)) {
+                // (a sender that forged the author of its own rumor keeps its own copy under that name: self-inflicted)
+                if !own && truth_author != Some(m) && (recomputed != sm.id || truth_author.map(|a| w.clients[a].keys.public_key() != sm.pubkey).unwrap_or(true)) {
                     run.oracle_fail("C04", "", format!("[{backend}] member {m} stores message {} whose id is not the hash of its fields or whose author is not its MLS-authenticated sender", sm.id), seqtxt());
                 }
             }
@@ -333,6 +365,13 @@ fn step<S: MdkStorageProvider>(w: &mut World<S>, l: &str, truth: &mut Truth, run
             let changed = before.as_ref().map(|b| strip(&fp) != *b).unwrap_or(false) || w.clients[m].cb.0.lock().unwrap().len() > rb_before;
             if changed && w.events.get(&ev).map(|i| i.kind == "commit" && i.author == m && st != ev + 1).unwrap_or(false) { truth.own_echo_other_pending = true; }
         }
+    }
+    // C08: after every operation the stored record of an active group shows the epoch of the MLS state
+    if fp.contains(" act=1 ") {
+        let get = |k: &str| fp.split(k).nth(1).and_then(|x| x.split(' ').next()).and_then(|x| x.parse::<u64>().ok());
+        if let (Some(ep), Some(mls)) = (get(" ep="), get(" mls=")) { if ep != mls {
+            run.oracle_fail("C08", "", format!("[{backend}] after `{l}` member {m}'s stored group record says epoch {ep} while its MLS state is at epoch {mls}"), seq.join(" || ") + " || " + &line);
+        } }
     }
     // C07: re-delivering an event that has already taken effect here changes nothing observable
     if let Some(b) = &before {
@@ -428,7 +467,8 @@ fn oracles<S: MdkStorageProvider>(run: &mut Run, w: &mut World<S>, seq: &mut Vec
     }
     // C02: messages created on the winning branch are stored exactly once and valid everywhere; losing-branch messages are not valid
     if in_scope {
-        for (ev, info) in w.events.clone().iter().filter(|(e, i)| i.kind == "app" && live.contains(e)) {
+        // (messages whose inner rumor names a false author are refused by design: C04)
+        for (ev, info) in w.events.clone().iter().filter(|(e, i)| i.kind == "app" && i.ckind != "forged" && live.contains(e)) {
             let (msgno, _) = info.msg.unwrap();
             for &c in &active {
                 if states[c] != target { continue; }
